@@ -523,7 +523,8 @@ pub fn exec_step(w: &mut World, ctx: &mut Ctx, st: &Step) -> StepResult {
         "Deepen" => {
             // nesting five to ten levels deep: alternately wrapped and placed as the object of a fresh subject
             let d = doc!(a0);
-            let k = 5 + (a1 % 6) as usize;
+            // (one time in five deeper than any fixed-size indentation or recursion budget one might think of: 17..24)
+            let k = if a1 % 5 == 0 { 17 + (a1 / 5 % 8) as usize } else { 5 + (a1 % 6) as usize };
             let mut env = w.docs[d].env.clone();
             let mut m = w.docs[d].m.clone();
             for lvl in 0..k {
@@ -1248,7 +1249,7 @@ pub fn generate(property: &str, r: &mut SimRng, seed: u64) -> Scenario {
         }
         if on(r, 1, 4) {
             w.push(("AddMany", 1));
-            w.push(("Deepen", 1));
+            w.push(("Deepen", if property == "C16" { 3 } else { 1 }));
         }
         if on(r, 1, 3) {
             w.push(("NodeInNode", 2));
